@@ -49,3 +49,15 @@ package sys
 // ---- C15: hooks are installed before the location's state is loaded -------------------------------
 //@ func (*System).newLocation
 //@   assert[C15.hooks_before_load] at "NewLocation(ctx, name, state,": hooksInstalled
+
+// ---- C11: declared acquisition order of the mutexes shared between requests -----------------------
+// (the cache lock is taken before an entry's lock: Open / Release -> expire; an entry's lock is held while the location is
+// loaded, which takes the system lock for the storage, the state lock and the storage's own lock)
+//@ lock-order sys.CachedLocations.Mutex < sys.CachedLocation.Mutex
+//@ lock-order sys.CachedLocation.Mutex < sys.System.Mutex
+//@ lock-order sys.CachedLocation.Mutex < core.IndexedState.RWMutex
+//@ lock-order sys.CachedLocation.Mutex < core.LinearState.RWMutex
+//@ lock-order core.IndexedState.RWMutex < core.MemStorage.Mutex
+//@ lock-order core.LinearState.RWMutex < core.MemStorage.Mutex
+//@ lock-order core.IndexedState.RWMutex < core.Location.RWMutex
+//@ lock-order core.LinearState.RWMutex < core.Location.RWMutex
